@@ -20,7 +20,7 @@ import numpy as np
 
 import vlib
 
-COQ_TARGETS = ["Proofs/PyReprProofs.vo"]
+COQ_TARGETS = ["Proofs/PyReprFix.vo"]
 
 ALIASES = ["fl", "", "*", "fzl"]
 SHAPES = ["Arc", "Bell", "Binary", "Concave", "Cosine", "Gaussian", "GaussianProduct", "PiShape", "Ramp", "Rectangle", "SemiEllipse",
@@ -563,6 +563,7 @@ class Sink:
         self.broken: list = []  # (kind, name, detail)
         self.cases_a: list = []  # (literal, index entry)
         self.cases_b: list = []
+        self.cases_d: list = []
         self.weights: dict[str, float] = {}
         self.pascal: dict[str, str] = {}
         self.nontrivial = 0
@@ -634,6 +635,12 @@ def check_engine(fl, sk: Sink, engine, info, formatted_combo, alias_m):
         except Exception as ex:
             if mode == "encapsulated" and alias == "*" and cname in library_names(fl):
                 sk.violation("pyrepr:encapsulated-name-shadows-library", f"engine named {engine.name!r}: `class {cname}:` shadows fuzzylite.{cname} after `from fuzzylite import *`: {type(ex).__name__}: {str(ex)[:120]}", rp())
+                if not fmt:
+                    try:  # the model must fail here too (run_module: the class statement rebinds the name the expression calls)
+                        e_plain = parse_expr(texts[(alias, "repr", False)])
+                        sk.cases_d.append((f"({cstr(alias)}, {dump0}, {expr_lit(e_plain)}, {enc_header(parse_module(text), e_plain)[6:-1]})", ("D", "engine-shadowed", alias, text[:200])))
+                    except (Unparsable, DumpError, SyntaxError) as ex2:
+                        sk.broken.append(("correspondence", "C15:unparsable-engine", f"{type(ex2).__name__}: {ex2}"))
             else:
                 sk.violation(f"pyrepr:engine-rebuild:{type(ex).__name__}", f"exported engine text does not evaluate ({alias!r}, {mode}, formatted={fmt}): {type(ex).__name__}: {str(ex)[:200]}", rp())
             continue
@@ -1002,6 +1009,11 @@ Definition check_a (c : string * pyval float * pyexpr float * pyval float * opti
          let m := [imp; match hd with inl (n, at_) => SClassInit n at_ e | inr (f, ann) => SDefReturn f ann e end] in
          result_eqb (list_eqb (pystmt_eqb fsame)) (@encapsulate float NF E a v) (Ok m) && result_eqb veq (@run_module float NF E m) (Ok v2)
      end.
+Definition check_d (c : string * pyval float * pyexpr float * header) : bool :=
+  let '(al, v, e, (imp, hd)) := c in let a := alias_of al in
+  let m := [imp; match hd with inl (n, at_) => SClassInit n at_ e | inr (f, ann) => SDefReturn f ann e end] in
+  result_eqb eeq (@repr float NF E a v) (Ok e) && result_eqb (list_eqb (pystmt_eqb fsame)) (@encapsulate float NF E a v) (Ok m)
+  && result_eqb veq (@run_module float NF E m) (Err EInternal).
 Definition check_c (c : string * pyexpr float * result (pyval float)) : bool :=
   let '(al, e, want) := c in result_eqb veq (@eval float NF E (alias_of al) e) want.
 """
@@ -1036,8 +1048,8 @@ def run(ctx, build, verdict, ev):
             verdict.add_broken(kind, name, detail)
         cases_a += [c for c, _ in sk.cases_a]
         index_a += [x for _, x in sk.cases_a]
-        cases_b += [c for c, _ in sk.cases_b]
-        index_b += [x for _, x in sk.cases_b]
+        cases_b += [c for c, _ in sk.cases_d]
+        index_b += [x for _, x in sk.cases_d]
         if sk.sample and len(samples) < 3:
             samples.append(sk.sample)
 
@@ -1060,9 +1072,10 @@ def run(ctx, build, verdict, ev):
     mism = []
     if not build.translation_errors:
         groups = [("string * pyval float * pyexpr float * pyval float * option header", "check_a", cases_a),
+                  ("string * pyval float * pyexpr float * header", "check_d", cases_b),
                   ("string * pyexpr float * result (pyval float)", "check_c", cases_c)]
         bad, log = vlib.run_coq_cases(ctx.work, "c15", coq_env(st, fl), groups, chunk=ctx.n(100, 200))
-        index = index_a + index_c
+        index = index_a + index_b + index_c
         for k in bad:
             if k < 0:
                 verdict.add_broken("correspondence", "C15:coq-evaluation", log)
@@ -1079,7 +1092,7 @@ def run(ctx, build, verdict, ev):
                  "non-trivial = engines whose 8-row output comparison ran (representable, no disabled rule) and produced at least one non-NaN output")
     c["distribution"] = dict(sorted(st.dist.items()))
     c["engines"] = n_engines
-    c["model_cases"] = {"repr_eval_normalize": len(cases_a), "of_which_with_encapsulated_module": sum(1 for x in cases_a if not x.endswith(", None)")), "constructor_variants": len(cases_c)}
+    c["model_cases"] = {"repr_eval_normalize": len(cases_a), "of_which_with_encapsulated_module": sum(1 for x in cases_a if not x.endswith(", None)")), "shadowed_class_name_cases": len(cases_b), "constructor_variants": len(cases_c)}
     c["formatted"] = st.formatted
     c["correspondence_mismatches"] = len(mism)
     c["oracle_violations"] = st.oracle_violations
